@@ -477,7 +477,7 @@ impl std::fmt::Display for Pieces {
             if self.fail_at == i + 1 {
                 return Err(std::fmt::Error);
             }
-            f.write_str(std::str::from_utf8(p).unwrap())?;
+            crate::pool::write_piece(f, std::str::from_utf8(p).unwrap())?;
         }
         if self.fail_at == self.pieces.len() + 1 {
             return Err(std::fmt::Error);
@@ -595,7 +595,31 @@ pub fn conv(out_dir: &str, files: usize, thorough: bool, seed: u64) -> i32 {
         }
     }
     // ---- user Display types writing their text in pieces, failing after piece k (C15)
-    let piece_texts: [&[u8]; 5] = [b"", b"a", "é€".as_bytes(), b"0123456789abcdef", b"xyzxyzxyzxyzxyzxyzxyz"];
+    let piece_texts: [&[u8]; 9] = [b"", b"a", "é€".as_bytes(), b"0123456789abcdef", b"xyzxyzxyzxyzxyzxyzxyz", "中".as_bytes(), "\u{100}".as_bytes(), "😀".as_bytes(), "─".as_bytes()];
+    // padding with a non-ASCII fill goes through write_char as well
+    for fill in ['─', '中', 'x', '\u{100}', '😀'] {
+        struct Ruled(char);
+        impl std::fmt::Display for Ruled {
+            fn fmt(&self, f: &mut std::fmt::Formatter<'_>) -> std::fmt::Result {
+                for _ in 0..6 {
+                    std::fmt::Write::write_char(f, self.0)?;
+                }
+                f.write_str(" summary ")?;
+                for _ in 0..6 {
+                    std::fmt::Write::write_char(f, self.0)?;
+                }
+                Ok(())
+            }
+        }
+        let v = Ruled(fill);
+        let before = shim::begin_call(&[]);
+        let res = v.try_to_lean_string();
+        let st = shim::end_call(before);
+        let pieces: Vec<Vec<u8>> = (0..6).map(|_| fill.to_string().into_bytes()).chain([b" summary ".to_vec()]).chain((0..6).map(|_| fill.to_string().into_bytes())).collect();
+        recs.push(json!({"k":"disp","pieces":pieces,"failat":0,"cls":if res.is_ok() {"ok"} else {"err"},"msg":"","text":res.as_ref().map(|s| s.as_bytes().to_vec()).unwrap_or_default(),
+            "stdcls":"ok","stdtext":v.to_string().as_bytes(),"dA":st.d_a}));
+        *counts.entry("disp".into()).or_default() += 1;
+    }
     for n in 0..=3usize {
         let combos = piece_texts.len().pow(n as u32);
         for ci in 0..combos {
